@@ -1754,6 +1754,8 @@ class ListProxy(list):
 
     def remove(self, object):
         with self._trigger():
+            # The stored object, which may be equal but not identical to the argument
+            object = super().__getitem__(self.index(object))
             super().remove(object)
             self._parameter._objects.remove(object)
             if self._parameter.names:
